@@ -3,6 +3,7 @@
 package jp
 
 import (
+	"bytes"
 	"regexp"
 	"strconv"
 )
@@ -303,7 +304,11 @@ func (e *Equation) appendValue(buf []byte, v any) []byte {
 	case int:
 		buf = append(buf, strconv.FormatInt(int64(tv), 10)...)
 	case float64:
+		start := len(buf)
 		buf = append(buf, strconv.FormatFloat(tv, 'g', -1, 64)...)
+		if !bytes.ContainsAny(buf[start:], ".eEIN") { // keep it a float when parsed again
+			buf = append(buf, ".0"...)
+		}
 	case float32:
 		buf = append(buf, strconv.FormatFloat(float64(tv), 'g', -1, 32)...)
 	case bool:
